@@ -14,8 +14,9 @@
    * [FieldRA ...] (Proofs/Roots.v): RR = KK = an abstract field, sqrt / cube root / sign choices as
      Section functions: the theorems of Props/C10.v.
 
-   The model is of the REPAIRED code (fix 1e066e6: q = 0 in quadratic_solve); the pre-repair
-   variant is [quadratic_solve_gen false] (Legacy/C10Refuted.v). *)
+   The model is of the REPAIRED code (fix 1e066e6: q = 0 in quadratic_solve; fix eb1fb9c: Cardano sign
+   choice); the pre-repair variants are [quadratic_solve_gen false] and [cubic_solve_gen false]
+   (Legacy/C10Refuted.v). *)
 From Coq Require Import List Arith Bool ZArith Floats Lia.
 From OV Require Import Base.Panic Base.Arith Model.Complex gen.Params.
 Import ListNotations.
@@ -36,6 +37,7 @@ Record RootArith := {
   reps : RR;                          (* f64::EPSILON *)
   rfrac : list RR;                    (* laguer's frac[] (gen/Params.v) *)
   kfinite : KK -> bool;               (* both components finite (trace only; never read by the algorithm) *)
+  rfinite : RR -> bool;               (* finite (trace only) *)
   osqrt : KK -> res KK;               (* Complex::<f64>::sqrt   -- libm: oracle *)
   opow : KK -> KK -> res KK;          (* Complex::<f64>::pow    -- libm: oracle *)
   opolar : RR -> RR -> res KK;        (* Complex::<f64>::polar  -- libm: oracle *)
@@ -44,9 +46,10 @@ Record RootArith := {
 Inductive lexit := Converged | Stalled | Exhausted.
 
 (* result of one laguer call: final iterate, exit reason, value of `*iterations`, finiteness of the
-   iterate on entry and on exit (the last two are trace only) *)
-Record lres (X : Type) := mkL { lx : X; lwhy : lexit; liters : nat; lfin_in : bool; lfinite : bool }.
+   iterate on entry and on exit, sanity of the convergence test (the last three are trace only) *)
+Record lres (X : Type) := mkL { lx : X; lwhy : lexit; liters : nat; lfin_in : bool; lfinite : bool; ltest_ok : bool }.
 Arguments mkL {X}. Arguments lx {X}. Arguments lwhy {X}. Arguments liters {X}. Arguments lfin_in {X}. Arguments lfinite {X}.
+Arguments ltest_ok {X}.    (* false iff the exit is Converged and the bound `err` of the test |p(x)| <= err was not finite *)
 
 Section Model.
 Context (RA : RootArith).
@@ -76,7 +79,8 @@ Definition quadratic_solve_gen (fixed : bool) (a b c : K) : res (list K) :=
 Definition quadratic_solve := quadratic_solve_gen true.
 
 (* ---- cubic_solve (mod.rs:227-248) ---- *)
-Definition cubic_solve (a b c d : K) : res (list K) :=
+(* d0, d1 and the radicand  - 27. * a * a * dis  (= d1^2 - 4 d0^3) *)
+Definition cubic_disc (a b c d : K) : K * K * K :=
   let a2 : K := mul a a in let b2 : K := mul b b in let c2 : K := mul c c in let d2 : K := mul d d in
   (* dis = 18.*a*b*c*d - 4.*b*b2*d + b2*c2 - 4.*a*c2*c - 27.*a2*d2 *)
   let t1 : K := mul (mul (mul (kmulr RA a (rlit 18)) b) c) d in
@@ -89,15 +93,25 @@ Definition cubic_solve (a b c d : K) : res (list K) :=
   let d0 : K := sub b2 (mul (kmulr RA a (rlit 3)) c) in
   let d1 : K := add (sub (mul (kmulr RA b2 (rlit 2)) b) (mul (mul (kmulr RA a (rlit 9)) b) c))
                     (mul (kmulr RA a2 (rlit 27)) d) in
+  (d0, d1, mul (mul (kmulr RA a (neg (rlit 27))) a) dis).
+
+(* the sign test of `base`.  conj_sign = true: the repaired code (fix eb1fb9c),
+   `( d1.conj() * sqrt ).real < 0.0`; conj_sign = false: the pre-repair `d1 < Cmplx::zero()`
+   (lexicographic PartialOrd), kept for Legacy/C10Refuted.v. *)
+Definition cubic_minus (conj_sign : bool) (d1 sq : K) : bool :=
+  if conj_sign then ltb (kre RA (mul (kconj RA d1) sq)) zero else ltb d1 zero.
+
+Definition cubic_solve_gen (conj_sign : bool) (a b c d : K) : res (list K) :=
+  let '(d0, d1, rad) := cubic_disc a b c d in
   let three_a : K := kmulr RA a (rlit 3) in
   if eqb d0 zero && eqb d1 zero then
     (* roots[0] = -b / ( 3. * a ); roots[1] = roots[0]; roots[2] = roots[0]; *)
     let* r := div (neg b) three_a in Ok [r; r; r]
   else
     (* let sqrt = (- 27. * a * a * dis).sqrt(); *)
-    let* sq := osqrt RA (mul (mul (kmulr RA a (neg (rlit 27))) a) dis) in
-    (* let base = if d1 < Cmplx::zero() { d1 - sqrt } else { d1 + sqrt } / 2.; *)
-    let* base := kdivr RA (if ltb d1 zero then sub d1 sq else add d1 sq) (rlit 2) in
+    let* sq := osqrt RA rad in
+    (* let base = if ( d1.conj() * sqrt ).real < 0.0 { d1 - sqrt } else { d1 + sqrt } / 2.; *)
+    let* base := kdivr RA (if cubic_minus conj_sign d1 sq then sub d1 sq else add d1 sq) (rlit 2) in
     (* let k = base.pow( &Cmplx::new( 1. / 3.0, 0.0 ) ); *)
     let* third := div (one : R) (rlit 3) in
     let* k := opow RA base (mkk RA third zero) in
@@ -117,6 +131,7 @@ Definition cubic_solve (a b c d : K) : res (list K) :=
     let* q2 := div d0 u2k in
     let* r2 := div (neg (add (add b u2k) q2)) three_a in
     Ok [r0; r1; r2].
+Definition cubic_solve := cubic_solve_gen true.
 
 (* ---- laguer (mod.rs:306-346) ---- *)
 (* the inner loop `for j in (0..m).rev()`: state (b, err, d, f) *)
@@ -134,12 +149,12 @@ Definition horner3 (a : list K) (m : nat) (x : K) : res (K * R * K * K) :=
   for_rev 0 m (horner_body a x (kabs RA x)) (am, kabs RA am, zero, zero).
 
 (* one pass of the body of `for iter in 1..MAXIT`: inl = `return` (with the reason), inr = next x *)
-Definition laguer_step (a : list K) (m : nat) (iter : nat) (x : K) : res (lexit + K) :=
+Definition laguer_step (a : list K) (m : nat) (iter : nat) (x : K) : res (lexit * bool + K) :=
   let* st := horner3 a m x in
   let '(b, err, d, f) := st in
   let abx : R := kabs RA x in
   let err : R := mul err (reps RA) in                         (* err *= EPS; *)
-  if leb (kabs RA b) err then Ok (inl Converged) else          (* if b.abs() <= err { return; } *)
+  if leb (kabs RA b) err then Ok (inl (Converged, rfinite RA err)) else          (* if b.abs() <= err { return; } *)
   let* g := div d b in                                         (* let g = d / b; *)
   let g2 : K := mul g g in
   let* fb := div f b in
@@ -156,7 +171,7 @@ Definition laguer_step (a : list K) (m : nat) (iter : nat) (x : K) : res (lexit 
              then div (mkk RA (rlit m) zero) gp
              else opolar RA (add one abx) (rlit iter) in
   let x1 : K := sub x dx in
-  if eqb x x1 then Ok (inl Stalled) else                        (* if *x == x1 { return; } *)
+  if eqb x x1 then Ok (inl (Stalled, true)) else                        (* if *x == x1 { return; } *)
   if negb (iter mod LAGUER_MT =? 0) then Ok (inr x1)            (* if iter % MT != 0 { *x = x1; } *)
   else let* fr := rd (rfrac RA) (iter / LAGUER_MT) in           (* else { *x -= dx * frac[ iter / MT ]; } *)
        Ok (inr (sub x (kmulr RA dx fr))).
@@ -164,11 +179,11 @@ Definition laguer_step (a : list K) (m : nat) (iter : nat) (x : K) : res (lexit 
 (* `for iter in 1..MAXIT`: fuel = number of iterations left; falling out of the loop is [Exhausted] *)
 Fixpoint laguer_loop (a : list K) (m : nat) (fin0 : bool) (fuel iter : nat) (x : K) : res (lres K) :=
   match fuel with
-  | 0 => Ok (mkL x Exhausted (iter - 1) fin0 (kfinite RA x))
+  | 0 => Ok (mkL x Exhausted (iter - 1) fin0 (kfinite RA x) true)
   | S fuel' =>
       let* o := laguer_step a m iter x in
       match o with
-      | inl why => Ok (mkL x why iter fin0 (kfinite RA x))
+      | inl (why, tok) => Ok (mkL x why iter fin0 (kfinite RA x) tok)
       | inr x' => laguer_loop a m fin0 fuel' (S iter) x'
       end
   end.
@@ -286,6 +301,7 @@ Definition FloatRA (tbl : list float) : RootArith := {|
   rfabs := PrimFloat.abs; rmax := fmax;
   rhalf := F_HALF; reps := F_EPS; rfrac := LAGUER_FRAC;
   kfinite := fun z : cplx AF => f_finite (re z) && f_finite (im z);
+  rfinite := f_finite;
   osqrt := fun z : cplx AF => olookup tbl 0 (re z) (im z) 0 0;
   opow := fun z w : cplx AF => olookup tbl 1 (re z) (im z) (re w) (im w);
   opolar := fun r th : float => olookup tbl 2 r th 0 0;
@@ -300,8 +316,8 @@ Definition roots_cplx (tbl : list float) (coeffs : list (cplx AF)) (refine : boo
 (* output streams *)
 Definition exit_code (e : lexit) : nat := match e with Converged => 0 | Stalled => 1 | Exhausted => 2 end.
 Definition fl_lres (l : lres (cplx AF)) : list Z :=
-  fl_nat (exit_code (lwhy l)) ++ fl_nat (liters l) ++ fl_bool (lfin_in l) ++ fl_bool (lfinite l).
-(* tie: the roots only;  trace: the roots, then (exit reason, iterations, finite on entry, finite on exit) of every laguer call *)
+  fl_nat (exit_code (lwhy l)) ++ fl_nat (liters l) ++ fl_bool (lfin_in l) ++ fl_bool (lfinite l) ++ fl_bool (ltest_ok l).
+(* tie: the roots only;  trace: the roots, then (exit reason, iterations, finite on entry, finite on exit, test sane) of every laguer call *)
 Definition fl_roots (r : res (list (cplx AF) * list (lres (cplx AF)))) : list Z :=
   fl_res (fun p => fl_list flat_cf (fst p)) r.
 Definition fl_roots_trace (r : res (list (cplx AF) * list (lres (cplx AF)))) : list Z :=
